@@ -18,3 +18,28 @@ def entry(pid, built, category, text, note, technique, design_ref, reason=NOT_BU
 
 for _i in range(1, 21):
     entry(f"C{_i:02d}", False, "model_checking", "", "", "", f"DESIGN.md §4 C{_i:02d}")
+
+_QOS_NOTE = ("Trusted: harness/vloop.py reproduces CPython 3.12's loop-iteration semantics; FakeTransport delivers packets "
+             "via call_soon(pkt_received) like the real transports; echo/reply/foreign classification as discharged by C06. "
+             "Bounds: TLC 2 callers x <=3 delivered packets x <=1 disconnect x <=1 write failure; real-code scenarios <=4 callers. "
+             "A failed model invariant alone never raises a verdict (it is reported as MODEL-DRIFT); verdicts come from "
+             "QosContract clauses evaluated by TLC on recorded executions of the real PortProtocol.")
+_QOS_TECH = ("TLA+ model (spec/QosFsm.tla) checked by TLC; TLC behaviours replayed on the real PortProtocol by a directed "
+             "event loop with state comparison at every iteration boundary; recorded executions validated by TLC against "
+             "spec/QosContract.tla (trace validation)")
+entry("C07", True, "model_checking",
+      "Every send ends with its own echo/reply or a protocol error, within the caller's time-out: TLC explores all interleavings "
+      "of the callback-grain model of ProtocolContext (callers, time-outs, echo/reply/duplicate/foreign packets, disconnect, "
+      "write failure, coincident timers) for the invariants OwnPacket/NotFrozen/EndsIdle; the model is bound to the code by "
+      "replaying TLC behaviours on the real protocol with stepwise state comparison, and thousands of systematic and seeded "
+      "executions of the real code are judged by TLC against the contract clauses C07a-e.", _QOS_NOTE, _QOS_TECH, "DESIGN.md §4 C07-C09")
+entry("C08", True, "model_checking",
+      "Retry budget, back-off, no transmission after the answer, one command in flight, priority-then-FIFO start order: "
+      "model invariants Budget/NoTimerLeak/NoWriteAfterAnswer under TLC, and contract clauses C08a-f evaluated by TLC on "
+      "recorded executions of the real code (all max_retries, time-outs at the back-off coincidence points, loss patterns, "
+      "queue orders with callers timing out while queued).", _QOS_NOTE, _QOS_TECH, "DESIGN.md §4 C07-C09")
+entry("C09", True, "model_checking",
+      "The sender never wedges: TLC shows NoTrip (every assertion site), NotFrozen (context lock), EndsIdle at quiescence for all "
+      "bounded episodes of the model of the current code; every explored real execution ends idle/inactive with nothing in "
+      "flight, no consistency check tripped, no loop exception, event-loop thread never blocked, and a probe send succeeds "
+      "(clauses C09a-d).", _QOS_NOTE, _QOS_TECH, "DESIGN.md §4 C07-C09")
